@@ -37,46 +37,225 @@ PROPS["C02"] = dict(
         H("c02_block_popcount_avx2_oneword", timeout=600, bounds="one arbitrary word at arbitrary position, rest zero"),
         H("c02_find_unmatched_close_in_word", timeout=600, bounds="all x:u64"),
         H("c02_find_close_in_word", timeout=900, bounds="all x:u64, all p:u32"),
+        H("c02_contract_sound", timeout=900, bounds="all x, k: contract result == spec"),
+        H("c02_contract_total", timeout=900, bounds="all x, k: spec result satisfies the contract"),
         H("c02_witness_must_fail", kind="witness", tier="thorough", timeout=300, bounds="vacuity witness"),
     ],
 )
 
+SEL64 = {"select_in_word_ctz": 66, "pdep_u64": 66}
+
+
+def bvu(inner):
+    d = dict(SEL64)
+    d[r"SelectIndex.*5build.*\.0$"] = inner
+    return d
+
+
 PROPS["C01"] = dict(
     module="c01",
-    bounds=("rank directory: all contents of 9/17 words; select index: all contents of 1-3 words, rates 1..=4096 in ranges; "
-            "scan_select: all contents of 9/19/27 words from concrete start words {0,1,2,3,11}, every remaining count; "
+    bounds=("rank directory: all contents of 9/17 words; select index: all contents of 2-4 words at concrete rates {1,2,3,64,100,256,4096}; "
+            "scan_select: all contents of 9/19/27 words from concrete start words {0,1,2,3,11}, every remaining count, both block-popcount paths; "
             "whole BitVec: all contents of 2 words + 1 surplus word (stray bits arbitrary), lengths {0,1,63,64,65,100,128}, "
-            "sample rates {1,2,3,64,256,4096}, every query argument 0..=200; dispatch (BMI2/AVX2) solver-chosen"),
+            "sample rates {1,2,3,64,256,4096}, every query argument 0..=200; BMI2 dispatch solver-chosen"),
     outside=("vectors longer than 27 words in one piece (covered compositionally only), L0 superblocks (2^32 bits), serde, "
-             "`simd`/`portable-popcount` builds of the whole BitVec (popcount kernels themselves are in C02), lengths and rates not listed"),
-    assumptions=["has_fast_bmi2 / is_x86_feature_detected!(avx2) are solver-chosen booleans",
+             "`simd`/`portable-popcount` builds of the whole BitVec (popcount kernels themselves are in C02), lengths and rates not listed; "
+             "whole-BitVec harnesses take the AVX2 block-popcount path (portable path decided in the scan harnesses)"),
+    assumptions=["has_fast_bmi2 is a solver-chosen boolean; is_x86_feature_detected!(avx2) fixed per harness as listed",
                  "_pdep_u64, _mm256_shuffle_epi8, _mm256_sad_epu8 replaced by models.rs"],
     harnesses=[
         H("c01_rankdir_9", timeout=300, bounds="all [u64; 9]"),
         H("c01_rankdir_17", timeout=900, tier="thorough", bounds="all [u64; 17]"),
-        H("c01_selidx_2w_rate8up", timeout=900, bounds="all [u64; 2], rate 8..=4096 symbolic, all k"),
-        H("c01_selidx_1w_rate1to7", timeout=900, bounds="all [u64; 1], rate 1..=7 symbolic, all k"),
-        H("c01_selidx_3w_rate32up", timeout=900, tier="thorough", bounds="all [u64; 3], rate 32..=4096 symbolic"),
+        H("c01_selidx_2w_rate1", timeout=900, unwindset={r"SelectIndex.*5build.*\.0$": 131}, bounds="all [u64; 2], rate 1"),
+        H("c01_selidx_3w_rate2", timeout=900, tier="thorough", unwindset={r"SelectIndex.*5build.*\.0$": 99}, bounds="all [u64; 3], rate 2"),
+        H("c01_selidx_3w_rate3", timeout=900, unwindset={r"SelectIndex.*5build.*\.0$": 67}, bounds="all [u64; 3], rate 3"),
+        H("c01_selidx_4w_rate64", timeout=900, bounds="all [u64; 4], rate 64"),
+        H("c01_selidx_4w_rate100", timeout=900, tier="thorough", bounds="all [u64; 4], rate 100"),
+        H("c01_selidx_4w_rate256", timeout=900, bounds="all [u64; 4], rate 256"),
+        H("c01_selidx_3w_rate4096", timeout=900, tier="thorough", bounds="all [u64; 3], rate 4096"),
         H("c01_scan_19_s0_portable", timeout=900, bounds="19 words, start 0, portable block popcount"),
         H("c01_scan_19_s0_avx2", timeout=900, bounds="19 words, start 0, AVX2 block popcount (modelled)"),
         H("c01_scan_19_s2_any", timeout=900, tier="thorough", bounds="19 words, start 2, dispatch symbolic", replay="trace"),
         H("c01_scan_19_s3_portable", timeout=900, tier="thorough", bounds="19 words, start 3"),
-        H("c01_scan_19_s11_any", timeout=900, bounds="19 words, start 11 (tail only), dispatch symbolic", replay="trace"),
+        H("c01_scan_19_s10_any", timeout=900, bounds="19 words, start 10 (prologue 8 + 1 tail word), dispatch symbolic", replay="trace"),
         H("c01_scan_27_s0_portable", timeout=1800, tier="thorough", bounds="27 words, start 0: two blocks"),
         H("c01_scan_27_s1_avx2", timeout=1800, tier="thorough", bounds="27 words, start 1: two AVX2 blocks + tail"),
         H("c01_scan_9_s0_any", timeout=600, bounds="9 words, start 0 (prologue + 1-word tail)", replay="trace"),
         H("c01_scan_start_out_of_range", timeout=120, bounds="all start >= len"),
         H("c01_popcount_words_9", timeout=300, bounds="all [u64; 9], every prefix length"),
-        H("c01_bv_rank_len100_rate256", timeout=900, bounds="2+1 words, len 100, rate 256, all i <= 200", replay="trace"),
-        H("c01_bv_rank_len128_rate64", timeout=900, tier="thorough", bounds="len 128, rate 64", replay="trace"),
-        H("c01_bv_rank_len65_rate4096", timeout=900, bounds="len 65, rate 4096", replay="trace"),
-        H("c01_bv_select_len100_rate256", timeout=900, bounds="len 100, rate 256 (default), all k <= 200", replay="trace"),
-        H("c01_bv_select_len100_rate1", timeout=1800, tier="thorough", bounds="len 100, rate 1", replay="trace"),
-        H("c01_bv_select_len128_rate3", timeout=1800, tier="thorough", bounds="len 128, rate 3", replay="trace"),
-        H("c01_bv_select_len65_rate64", timeout=900, bounds="len 65, rate 64", replay="trace"),
-        H("c01_bv_select_len64_rate2", timeout=1800, tier="thorough", bounds="len 64, rate 2", replay="trace"),
-        H("c01_bv_select_len63_rate4096", timeout=900, tier="thorough", bounds="len 63, rate 4096", replay="trace"),
-        H("c01_bv_len0_len1", timeout=600, bounds="len 0 and len 1 over arbitrary words, rate symbolic", replay="trace"),
+        H("c01_bv_rank_len100_rate256", timeout=900, unwindset=bvu(3), bounds="2+1 words, len 100, rate 256, all i <= 200", replay="trace"),
+        H("c01_bv_rank_len128_rate64", timeout=900, unwindset=bvu(4), tier="thorough", bounds="len 128, rate 64", replay="trace"),
+        H("c01_bv_rank_len65_rate4096", timeout=900, unwindset=bvu(3), bounds="len 65, rate 4096", replay="trace"),
+        H("c01_bv_select_len100_rate256", timeout=900, unwindset=bvu(3), bounds="len 100, rate 256 (default), all k <= 200", replay="trace"),
+        H("c01_bv_select_len100_rate1", timeout=1800, unwindset=bvu(102), tier="thorough", bounds="len 100, rate 1", replay="trace"),
+        H("c01_bv_select_len128_rate3", timeout=1800, unwindset=bvu(45), tier="thorough", bounds="len 128, rate 3", replay="trace"),
+        H("c01_bv_select_len65_rate64", timeout=900, unwindset=bvu(4), bounds="len 65, rate 64", replay="trace"),
+        H("c01_bv_select_len64_rate2", timeout=1800, unwindset=bvu(35), tier="thorough", bounds="len 64, rate 2", replay="trace"),
+        H("c01_bv_select_len63_rate4096", timeout=900, unwindset=bvu(3), tier="thorough", bounds="len 63, rate 4096", replay="trace"),
+        H("c01_bv_len0_len1", timeout=600, unwindset=SEL64, bounds="len 0 and len 1 over arbitrary words, rate symbolic", replay="trace"),
         H("c01_witness_must_fail", kind="witness", tier="thorough", timeout=300, bounds="vacuity witness"),
+    ],
+)
+
+EFU = dict(SEL64)
+EFU.update({"advance_by": 66})
+
+PRED4 = dict(EFU)
+PRED4.update({r"EliasFano.*11predecessor": 4})
+PRED8 = dict(EFU)
+PRED8.update({r"EliasFano.*11predecessor": 5})
+
+PROPS["C03"] = dict(
+    module="c03",
+    bounds=("n in {1,4,5,6,8} concrete, last element concrete in {n-1 or small (low_width 0), 200, 1000, 2^20, u32::MAX}; all other "
+            "elements arbitrary non-decreasing u32; every index i:usize, every predecessor query q:u32; cursor: every start index, "
+            "every op in {current, advance_one, advance_by(k), seek(t)} with k,t <= 6..70, one-step induction with canonical-state equality"),
+    outside=("n > 8 with symbolic contents; sequences crossing the 256-element select sample (only via C12 concrete skeletons); "
+             "portable block popcount inside the EF scan (C01 decides scan_select on both paths)"),
+    assumptions=["AVX2 block popcount path taken and modelled (kernel decided in C02)", "in-word select on the CTZ path unless noted"],
+    harnesses=[
+        H("c03_get_n1_last0", timeout=600, unwindset=EFU, bounds="n=1, last=0"),
+        H("c03_get_n1_lastmax", timeout=600, unwindset=EFU, bounds="n=1, last=u32::MAX"),
+        H("c03_get_n4_last3", timeout=600, unwindset=EFU, bounds="n=4, last=3 (low_width 0)"),
+        H("c03_get_n4_last1000", timeout=600, unwindset=EFU, bounds="n=4, last=1000"),
+        H("c03_get_n4_last1000_pdep", timeout=600, unwindset=EFU, bounds="n=4, last=1000, PDEP select path"),
+        H("c03_get_n4_lastmax", timeout=600, unwindset=EFU, bounds="n=4, last=u32::MAX"),
+        H("c03_get_n6_last1m", timeout=900, unwindset=EFU, tier="thorough", bounds="n=6, last=2^20"),
+        H("c03_get_n8_last1000", timeout=900, unwindset=EFU, tier="thorough", bounds="n=8, last=1000"),
+        H("c03_get_n8_last7", timeout=900, unwindset=EFU, tier="thorough", bounds="n=8, last=7 (dense)"),
+        H("c03_pred_n4_last1000", timeout=900, unwindset=PRED4, bounds="n=4, last=1000, all q"),
+        H("c03_pred_n4_lastmax", timeout=900, unwindset=PRED4, bounds="n=4, last=u32::MAX, all q"),
+        H("c03_pred_n6_last5", timeout=900, unwindset=PRED4, tier="thorough", bounds="n=6, last=5 (duplicates forced)"),
+        H("c03_pred_n8_last1000", timeout=1800, unwindset=PRED8, tier="thorough", bounds="n=8, last=1000"),
+        H("c03_iter_n4_last1000", timeout=600, unwindset=EFU, bounds="n=4 iteration"),
+        H("c03_iter_n6_last1m", timeout=900, unwindset=EFU, tier="thorough", bounds="n=6 iteration"),
+        H("c03_iter_n5_last4", timeout=600, unwindset=EFU, tier="thorough", bounds="n=5 dense iteration"),
+        H("c03_cursor_current_n4_last1000", timeout=1200, unwindset=EFU, tier="quick", bounds="one-step induction: current_n4_last1000"),
+        H("c03_cursor_adv1_n4_last1000", timeout=1200, unwindset=EFU, tier="quick", bounds="one-step induction: adv1_n4_last1000"),
+        H("c03_cursor_advby_n4_last1000", timeout=1200, unwindset=EFU, tier="quick", bounds="one-step induction: advby_n4_last1000"),
+        H("c03_cursor_seek_n4_last1000", timeout=1200, unwindset=EFU, tier="quick", bounds="one-step induction: seek_n4_last1000"),
+        H("c03_cursor_adv1_n4_lastmax", timeout=1200, unwindset=EFU, tier="thorough", bounds="one-step induction: adv1_n4_lastmax"),
+        H("c03_cursor_advby_n4_lastmax", timeout=1200, unwindset=EFU, tier="quick", bounds="one-step induction: advby_n4_lastmax"),
+        H("c03_cursor_adv1_n6_last5", timeout=1200, unwindset=EFU, tier="thorough", bounds="one-step induction: adv1_n6_last5"),
+        H("c03_cursor_advby_n6_last5", timeout=1200, unwindset=EFU, tier="thorough", bounds="one-step induction: advby_n6_last5"),
+        H("c03_cursor_seek_n6_last5", timeout=1200, unwindset=EFU, tier="thorough", bounds="one-step induction: seek_n6_last5"),
+        H("c03_cursor_adv1_n8_last1000", timeout=1200, unwindset=EFU, tier="thorough", bounds="one-step induction: adv1_n8_last1000"),
+        H("c03_cursor_advby_n8_last1000", timeout=1200, unwindset=EFU, tier="thorough", bounds="one-step induction: advby_n8_last1000"),
+        H("c03_cursor_adv1_n6_last300", timeout=1200, unwindset=EFU, tier="thorough", bounds="one-step induction: adv1_n6_last300"),
+        H("c03_cursor_advby_n6_last300", timeout=1200, unwindset=EFU, tier="quick", bounds="one-step induction: advby_n6_last300"),
+        H("c03_cursor_exhausted_n4_last1000", timeout=1200, unwindset=EFU, bounds="any op after exhaustion"),
+        H("c03_cursor0_and_empty", timeout=600, unwindset=EFU, bounds="cursor()==cursor_from(0); empty sequence"),
+        H("c03_witness_must_fail", kind="witness", tier="thorough", timeout=600, unwindset=EFU),
+    ],
+)
+
+L12 = dict(EFU)
+L12.update({r"spec_lc": 80, r"spec_off": 80, r"LineIndex.*5build": 80, r"walk_forward_from": 18,
+            r"EliasFano.*5build": 80, r"filter.*count|5count": 80})
+
+PROPS["C12"] = dict(
+    module="c12",
+    bounds=("all texts of 0..=5 arbitrary bytes with every query pair (q1; q2; q2 repeated) up to len+2, every (line, column) up to len+2; "
+            "two concrete skeleton texts of 20 and 40 lines (LF/CRLF/CR mixes, empty lines) with every query pair up to len+3"),
+    outside="symbolic texts longer than 5 bytes (Elias-Fano with symbolic element count is out of reach); texts >= 256 lines (second select sample)",
+    assumptions=["AVX2 block popcount path modelled; in-word select on the CTZ path"],
+    harnesses=[
+        H("c12_text_len0", timeout=600, unwindset=L12, bounds="empty text"),
+        H("c12_text_len1", timeout=600, unwindset=L12, bounds="all 1-byte texts"),
+        H("c12_text_len2", timeout=900, unwindset=L12, bounds="all 2-byte texts"),
+        H("c12_text_len3", timeout=900, unwindset=L12, bounds="all 3-byte texts"),
+        H("c12_text_len4", timeout=1800, unwindset=L12, bounds="all 4-byte texts"),
+        H("c12_text_len5", timeout=2700, unwindset=L12, tier="thorough", bounds="all 5-byte texts"),
+        H("c12_skeleton_20", timeout=1800, unwindset=L12, bounds="concrete 20-line text, all query pairs"),
+        H("c12_skeleton_40", timeout=2700, unwindset=L12, tier="thorough", bounds="concrete 40-line text, all query pairs"),
+        H("c12_witness_must_fail", kind="witness", tier="thorough", timeout=900, unwindset=L12),
+    ],
+)
+
+PROPS["C17"] = dict(
+    module="c17",
+    bounds=("n in {4,5} arbitrary u32 positions (any order, duplicates, zero sentinels for ends) bounded by the concrete text length "
+            "in {63,64,100,128} (including positions equal to the text length); every lookup history of length 3 over indices 0..=n+1"),
+    outside="n > 5; text lengths not listed; more than 256 distinct positions (second select sample); YamlIndex wrappers (thin, read not encoded)",
+    assumptions=["AVX2 block popcount path modelled; in-word select on the CTZ path"],
+    harnesses=[
+        H("c17_open3_n4_tl100", timeout=900, unwindset=EFU, bounds="n=4, text_len 100, positions < 100"),
+        H("c17_open3_n5_tl128_max127", timeout=1800, unwindset=EFU, tier="thorough", bounds="n=5, text_len 128"),
+        H("c17_open3_n4_tl64_max63", timeout=900, unwindset=EFU, bounds="n=4, text_len 64, positions < 64"),
+        H("c17_open3_n4_tl100_eof", timeout=900, unwindset=EFU, bounds="n=4, text_len 100, positions <= 100"),
+        H("c17_open3_n4_tl64_eof", timeout=900, unwindset=EFU, bounds="n=4, text_len 64, positions <= 64"),
+        H("c17_end3_n4_tl100", timeout=900, unwindset=EFU, bounds="ends n=4, text_len 100"),
+        H("c17_end3_n5_tl128", timeout=1800, unwindset=EFU, tier="thorough", bounds="ends n=5, text_len 128"),
+        H("c17_end3_n4_tl64", timeout=900, unwindset=EFU, bounds="ends n=4, text_len 64"),
+        H("c17_end3_n4_tl63", timeout=900, unwindset=EFU, tier="thorough", bounds="ends n=4, text_len 63"),
+        H("c17_witness_must_fail", kind="witness", tier="thorough", timeout=600, unwindset=EFU),
+    ],
+)
+
+PROPS["C31"] = dict(
+    module="c31",
+    bounds=("all word vectors of 0..=4 words; byte slices of 0..=24 bytes taken at every offset 0..8 of an 8-aligned buffer; "
+            "from_parts round trips are decided under C07 (JsonIndex::from_parts) and C04 (BalancedParens::from_words)"),
+    outside="vectors longer than 4 words (the casts are length-generic, no loop over contents); mmap feature; serde",
+    assumptions=["CBMC's (object, offset) pointer model decides the alignment test of bytemuck::cast_slice"],
+    harnesses=[
+        H("c31_roundtrip_0", timeout=600, bounds="all [u64; 0]"),
+        H("c31_roundtrip_1", timeout=600, bounds="all [u64; 1]"),
+        H("c31_roundtrip_2", timeout=600, bounds="all [u64; 2]"),
+        H("c31_roundtrip_4", timeout=600, bounds="all [u64; 4]"),
+        H("c31_zero_copy_aligned", timeout=600, bounds="aligned start, every length 0..=24"),
+        H("c31_vec_off0", timeout=600, bounds="copying decoder, slice at offset 0, 1-3 words (concrete count)"),
+        H("c31_vec_off1", timeout=600, bounds="copying decoder, slice at offset 1, 1-3 words (concrete count)"),
+        H("c31_vec_off2", timeout=600, bounds="copying decoder, slice at offset 2, 1-3 words (concrete count)"),
+        H("c31_vec_off3", timeout=600, bounds="copying decoder, slice at offset 3, 1-3 words (concrete count)"),
+        H("c31_vec_off4", timeout=600, bounds="copying decoder, slice at offset 4, 1-3 words (concrete count)"),
+        H("c31_vec_off5", timeout=600, bounds="copying decoder, slice at offset 5, 1-3 words (concrete count)"),
+        H("c31_vec_off6", timeout=600, bounds="copying decoder, slice at offset 6, 1-3 words (concrete count)"),
+        H("c31_vec_off7", timeout=600, bounds="copying decoder, slice at offset 7, 1-3 words (concrete count)"),
+        H("c31_vec_off0_empty", timeout=600, bounds="copying decoder, empty slice at offset 0"),
+        H("c31_vec_off5_empty", timeout=600, bounds="copying decoder, empty slice at offset 5"),
+        H("c31_zero_copy_off1", kind="finding", finding="C31-misaligned-zero-copy", finding_match=r"bytemuck", timeout=600, bounds="zero-copy decoders, slice at offset 1, every length 0..=16"),
+        H("c31_zero_copy_off4", kind="finding", finding="C31-misaligned-zero-copy", finding_match=r"bytemuck", timeout=600, bounds="zero-copy decoders, slice at offset 4, every length 0..=16"),
+        H("c31_zero_copy_off7", kind="finding", finding="C31-misaligned-zero-copy", finding_match=r"bytemuck", timeout=600, bounds="zero-copy decoders, slice at offset 7, every length 0..=16"),
+        H("c31_badlen_off0", timeout=600, bounds="bad lengths, offset 0"),
+        H("c31_badlen_off3", timeout=600, bounds="bad lengths, offset 3"),
+        H("c31_witness_must_fail", kind="witness", tier="thorough", timeout=300),
+    ],
+)
+
+U13 = {r"line_col|violated_rule|valid_up_to": 70, r"line_and_column": 70, r"validate_utf8_scalar": 70, r"skip_ascii": 70,
+       r"broadword.*accepts": 70, r"c13.*window|c13_": 70, r"validate_utf8_avx2": 6}
+
+PROPS["C13"] = dict(
+    module="c13",
+    bounds=("scalar and broadword validators: every byte string of length 0..=8; longer inputs (17-65 bytes): concrete ASCII / multi-byte filler "
+            "with a fully symbolic window of 4-8 bytes placed at the 8-byte word and 32-byte block boundaries; AVX2 validator: same windows at "
+            "offsets 0, 27-30 and 60 around the 32/64-byte chunk boundaries; encode/decode: every u32 and every <=4-byte string"),
+    outside="more than 8 symbolic bytes at once; windows at offsets not listed; aarch64",
+    assumptions=["_mm256_max_epu8 and _mm256_testz_si256 replaced by models.rs; is_x86_feature_detected!(avx2) fixed or solver-chosen per harness"],
+    harnesses=[
+        H("c13_scalar_len0to3", timeout=600, unwindset=U13, bounds="all strings of 0..=3 bytes"),
+        H("c13_scalar_len4", timeout=600, unwindset=U13, bounds="all 4-byte strings"),
+        H("c13_scalar_len5", timeout=900, unwindset=U13, bounds="all 5-byte strings"),
+        H("c13_scalar_len6", timeout=900, unwindset=U13, bounds="all 6-byte strings"),
+        H("c13_scalar_len7", timeout=1800, unwindset=U13, tier="thorough", bounds="all 7-byte strings"),
+        H("c13_scalar_len8", timeout=1800, unwindset=U13, tier="thorough", bounds="all 8-byte strings"),
+        H("c13_continuation_offset_is_valid_prefix", kind="finding", finding="C13-continuation-offset",
+          finding_match=r"e\.offset == valid_up_to", timeout=600, unwindset=U13, bounds="all 4-byte strings"),
+        H("c13_scalar_win17_at9", timeout=900, unwindset=U13, bounds="17 bytes, 6-byte window at 9"),
+        H("c13_scalar_win20_at12", timeout=900, unwindset=U13, tier="thorough", bounds="20 bytes, 6-byte window at 12"),
+        H("c13_broadword_win41_at30", timeout=900, unwindset=U13, bounds="41 bytes, 6-byte window at 30 (32-byte block skip)"),
+        H("c13_broadword_win36_at0", timeout=900, unwindset=U13, tier="thorough", bounds="36 bytes, 5-byte window at 0"),
+        H("c13_avx2_win33_at27", timeout=1800, unwindset=U13, bounds="33 bytes, 6-byte window at 27 (crosses the chunk boundary)"),
+        H("c13_avx2_win36_at28", timeout=2700, unwindset=U13, tier="thorough", bounds="36 bytes, 8-byte window at 28"),
+        H("c13_avx2_win36_at30", timeout=1800, unwindset=U13, bounds="36 bytes, 6-byte window at 30"),
+        H("c13_avx2_win34_at0", timeout=1800, unwindset=U13, tier="thorough", bounds="34 bytes, 6-byte window at 0"),
+        H("c13_avx2_win65_at60", timeout=2700, unwindset=U13, tier="thorough", bounds="65 bytes, 5-byte window at 60 (second boundary)"),
+        H("c13_avx2_win40_at29_multi", timeout=1800, unwindset=U13, tier="thorough", bounds="40 bytes multi-byte filler, 4-byte window at 29"),
+        H("c13_avx2_win8_at2", timeout=900, unwindset=U13, bounds="8 bytes (tail-only path), 6-byte window"),
+        H("c13_dispatch_win34_at29", timeout=1800, unwindset=U13, tier="thorough", bounds="validate_utf8 dispatcher, avx2 solver-chosen", replay="trace"),
+        H("c13_codepoint_roundtrip", timeout=600, bounds="every u32"),
+        H("c13_decode_matches_table", timeout=600, bounds="every string of 0..=4 bytes"),
+        H("c13_witness_must_fail", kind="witness", tier="thorough", timeout=600, unwindset=U13),
     ],
 )
